@@ -318,6 +318,13 @@ def main_check(mod, tier: str, seed: int, nproc: int | None = None) -> int:
         traceback.print_exc()
         return EXIT_HARNESS
 
+    if os.environ.get('VERIF_ONLY_REGRESSIONS'):    # development aid: replay tier only, no evidence written
+        for s_ in stale:
+            print(f'note: {s_}')
+        for name, b, rec in reg_bad:
+            print(f'regression case {name} shows bucket {b}')
+        return EXIT_VIOLATION if reg_bad else EXIT_OK
+
     jobs = mod.jobs(tier, seed)
     budget_s = float(os.environ.get('VERIF_WALL_BUDGET', '600' if tier == 'quick' else '3600'))
     deadline = t0 + budget_s
